@@ -702,7 +702,7 @@ def replay_detail(ctx: Any, detail: dict) -> int:
 
 # ---------------------------------------------------------------- corpora shared by the three drivers
 LIMIT_CONFIGS = {
-    "default": Limits(),
+    "default": DEFAULT_LIMITS,
     "small-equal": Limits(96, 96, 12),
     "line>field": Limits(160, 80, 12),
     "line<field": Limits(80, 160, 12),
